@@ -53,7 +53,7 @@ REQUIRED_BRANCHES = ['ineligible_skipped', 'all_eligible', 'nmin_zero', 'conv_ye
                      'consecutive_fits', 'refit_aps_unit', 'refit_dist_unit', 'refit_av', 'refit_nmin_sel', 'refit_subset',
                      'duplicate_photometry', 'duplicate_adjacent', 'duplicate_apart',
                      'model_dir_absolute', 'model_dir_relative', 'model_dir_unnormalised',
-                     'pkg_indep', 'pkg_dep', 'pkg_cube', 'pkg_cube_single_aperture', 'pkg_cube_aperture_dependent', 'filter_by_wavelength', 'data_path', 'data_handle',
+                     'long_model_names', 'pkg_indep', 'pkg_dep', 'pkg_cube', 'pkg_cube_single_aperture', 'pkg_cube_aperture_dependent', 'filter_by_wavelength', 'data_path', 'data_handle',
                      'rw_nan', 'rw_inf', 'rw_zero_fits', 'rw_fluxes', 'rw_no_fluxes',
                      'rw_share_source_buffer', 'rw_share_same_info_keep', 'rw_share_array_inplace',
                      'form_file', 'form_obj', 'form_list',
@@ -87,7 +87,7 @@ SHARES = ['source_buffer', 'same_info_keep', 'array_inplace']
 
 # ----------------------------------------------------------------------------- generation
 
-def gen_pkg(rng, variant='indep', cube_dep=None):
+def gen_pkg(rng, variant='indep', cube_dep=None, long_names=None):
     """variant: 'indep' distance-independent version-1 package (convolved files, one aperture);
     'dep' distance-dependent version-1 package (convolved files tabulated at several apertures);
     'cube' version-2 package (flux.fits) fitted at bare wavelengths (filters given as Quantity)"""
@@ -134,6 +134,11 @@ def gen_pkg(rng, variant='indep', cube_dep=None):
         # wavelengths asked for: slightly off the cube's own (nearest-wavelength look-up)
         pkg['ask_wav'] = [float('%.4g' % (w * rng.choice([1., 1., 1.002, 0.999]))) for w in wavs]
         pkg['named'] = [rng.random() < 0.25 for _ in wavs]    # some filters by name (convolved file), the rest by wavelength
+        if long_names or (long_names is None and rng.random() < 0.4):
+            # cube names are not limited to 30 characters: 31..60 characters that share their first 30
+            stem = 'grid_v2_' + 'x' * 22
+            pkg['names'] = names = [stem + ('_%d' % i) + 'y' * rng.randint(0, 26) for i in ids]
+            pkg['named'] = [False for _ in wavs]
         if cube_dep or (cube_dep is None and rng.random() < 0.4):
             # aperture-dependent cube (distance-dependent fits from a version-2 package)
             pkg['ap_au'] = [1., 1e3, 3e4, 1e7]
@@ -191,7 +196,7 @@ def gen_selector(rng, form=None, nm=4):
 
 def gen_fit_case(rng, directed=None):
     directed = directed or {}
-    pkg = gen_pkg(rng, directed.get('variant') or rng.choice(['indep', 'indep', 'dep', 'cube']), cube_dep=directed.get('cube_dep'))
+    pkg = gen_pkg(rng, directed.get('variant') or rng.choice(['indep', 'indep', 'dep', 'cube']), cube_dep=directed.get('cube_dep'), long_names=directed.get('long_names'))
     if directed.get('law_units'):
         pkg['law_units'] = list(directed['law_units'])
     nb = len(pkg['wavs'])
@@ -280,6 +285,7 @@ def gen_rw_case(rng, directed=None):
     nrec = rng.randint(1, 5)
     recs = []
     share = directed['share'] if 'share' in directed else rng.choice([None, None, None] + SHARES)
+    long_rw = directed['long_names'] if 'long_names' in directed else rng.random() < 0.35
     if share == 'source_buffer':
         nrec = max(nrec, 2)
     for i in range(nrec):
@@ -306,7 +312,8 @@ def gen_rw_case(rng, directed=None):
                          flags=[rng.choice([0, 1, 2, 3, 4, 9]) for _ in range(nb)],
                          fluxes=[[round(rng.uniform(-3, 3), 4) for _ in range(nb)] for _ in range(n)] if with_flux else None,
                          sort=rng.random() < 0.7,
-                         names=['m%d' % k for k in rng.sample(range(1000), n)]))
+                         names=[(('long_model_name_' + 'z' * 14 + '_%d' + 'w' * rng.randint(0, 25)) if long_rw else 'm%d') % k
+                                for k in rng.sample(range(1000), n)]))
     case = dict(kind='rw', pkg=pkg, recs=recs, dir_spelling=directed.get('dir_spelling') or rng.choice(['abs', 'abs'] + SPELLINGS))
     if share:
         # objects shared between records and changed between the writes (see `write_shared`)
@@ -389,8 +396,8 @@ def gen_cases(seed, tier):
                      dict(variant='dep', n_min=2, followups=2, fu_kinds=['nmin_sel', 'subset'], all_eligible=True),
                      dict(variant='cube', n_min=2, followups=2, fu_kinds=['dist_unit', 'same'], all_eligible=True),
                      dict(variant='indep', n_min=2, dir_spelling='rel'), dict(variant='dep', n_min=2, dir_spelling='rel_dotdot', followups=1, fu_kinds=['same']),
-                     dict(variant='cube', n_min=2, dir_spelling='abs_trailing', cube_dep=True), dict(variant='indep', n_min=3, dir_spelling='rel_trailing', data_as='handle'),
-                     dict(variant='cube', n_min=2, dir_spelling='rel_dot', conv=True, cube_dep=False), dict(variant='dep', n_min=2, dir_spelling='abs_dotdot'),
+                     dict(variant='cube', n_min=2, dir_spelling='abs_trailing', cube_dep=True, long_names=True), dict(variant='indep', n_min=3, dir_spelling='rel_trailing', data_as='handle'),
+                     dict(variant='cube', n_min=2, dir_spelling='rel_dot', conv=True, cube_dep=False, long_names=True, sel=['A', 0]), dict(variant='dep', n_min=2, dir_spelling='abs_dotdot'),
                      dict(variant='indep', n_min=2, n_lines=4, all_eligible=True, dup='adjacent'),
                      dict(variant='indep', n_min=2, n_lines=6, all_eligible=True, dup='apart'),
                      dict(variant='dep', n_min=2, n_lines=3, all_eligible=True, dup='adjacent', followups=1, fu_kinds=['same'])])
@@ -408,7 +415,7 @@ def gen_cases(seed, tier):
                 dict(share='source_buffer'), dict(share='same_info_keep'), dict(share='array_inplace', fluxes=True),
                 dict(share='source_buffer', fluxes=True, law_units=['AA', 'm2/kg']),
                 dict(share='array_inplace', fluxes=False, law_units=['micron', 'cm2/g']), dict(share=None, law_units=['nm', 'm2/kg']),
-                dict(share=None, dir_spelling='rel_dot'), dict(share='same_info_keep', dir_spelling='abs_dslash'), dict(share=None, dir_spelling='rel')]:
+                dict(share=None, dir_spelling='rel_dot', long_names=True), dict(share='same_info_keep', long_names=True), dict(share='same_info_keep', dir_spelling='abs_dslash'), dict(share=None, dir_spelling='rel')]:
         yield gen_rw_case(case_rng(seed, PID, i), dsp)
         i += 1
     for dsp in [dict(k=1, mem_from='fit', out_sel=['A', 0], thrs=[1e-9, 1e12], conv=True),
@@ -863,6 +870,8 @@ def one_fit_call(case, cp, ci, d, fnames_all, ext, use_model, branches):
         if any(nds[i] < 2 for i in elig):
             branches.add('singular_source_fitted')
         branches.add('pkg_' + pkg.get('variant', 'indep'))
+        if any(len(str(n).strip()) > 30 for r in recs for n in np.asarray(r.model_name).tolist()):
+            branches.add('long_model_names')
         if pkg.get('variant') == 'cube':
             branches.add('pkg_cube_aperture_dependent' if 'ap_au' in pkg else 'pkg_cube_single_aperture')
         branches |= law_branches(pkg)
@@ -1029,6 +1038,8 @@ def run_rw_case(case, use_model=True):
         branches.add('rw_fluxes' if any(r['fluxes'] is not None for r in case['recs']) else 'rw_no_fluxes')
         if share:
             branches.add('rw_share_' + share)
+        if any(len(n) > 30 for r in case['recs'] for n in r['names']):
+            branches.add('long_model_names')
         branches |= law_branches(pkg)
         if any(r['fluxes'] is None for r in case['recs']):
             branches.add('rw_no_fluxes')
